@@ -230,6 +230,24 @@ impl<'ast> Visit<'ast> for LoopFinder {
                 }
             }
         }
+        // D26: OPT.or_else(|| E)
+        if e.method == "or_else" && e.args.len() == 1 {
+            if let syn::Expr::Closure(c) = &e.args[0] {
+                if c.inputs.is_empty() {
+                    let mut ef = EscapeFinder::default();
+                    ef.visit_expr(&c.body);
+                    if ef.escapes == 0 {
+                        let call = e.span().byte_range();
+                        let recv = e.receiver.span().byte_range();
+                        let body = c.body.span().byte_range();
+                        self.vd.push(format!(
+                            "{{\"rule\":\"D26\",\"call\":[{},{}],\"recv\":[{},{}],\"body\":[{},{}]}}",
+                            call.start, call.end, recv.start, recv.end, body.start, body.end
+                        ));
+                    }
+                }
+            }
+        }
         // D21: OPT.is_some_and(|X| E)   (X an identifier, E without return/break/continue/?)
         if e.method == "is_some_and" && e.args.len() == 1 {
             if let syn::Expr::Closure(c) = &e.args[0] {
